@@ -6,10 +6,11 @@
    is hidden or clipped at size [s].  The padding / filler arithmetic is [geo_padfill_gen], regenerated
    from /repo on every run.
 
-   Proved for: Leaf (spy / Edit-like leaf given by data), Pile, Columns, Padding, Filler, Frame, BoxAdapter,
-   AttrMap, LineBox (a composition of Pile and Columns: [linebox]), and Overlay where stated.
-   Overlay: hit-testing is proved when the top widget is a box widget; for a flow top widget (height
-   'pack') and for get_cursor_coords the statements are REFUTED by witnesses below (defects of urwid). *)
+   Proved for EVERY tree built from: Leaf (spy / Edit-like leaf given by data), Pile, Columns, Padding, Filler,
+   Frame, BoxAdapter, AttrMap, Overlay (top widget hit-tested, bottom widget = background) and LineBox (a
+   composition of Pile and Columns: [linebox]).  The two Overlay statements that were refuted by witnesses in the
+   first round (Overlay.get_cursor_coords, Overlay hit-testing of a flow top widget) hold now that urwid is
+   repaired (fix: ebf9945, f18097d); the former witnesses are kept as regression Examples and corpus cases. *)
 From Coq Require Import ZArith List Bool.
 Import ListNotations.
 From Urwid Require Import PyBase geo_padfill_gen Geometry GeometryFacts GeometryProofs GeometryMoveProofs.
@@ -35,38 +36,35 @@ Theorem render_cursor_from_place :
 Proof. intros w s focus. unfold render_cursor, place. rewrite view_eq. destruct w; reflexivity. Qed.
 Print Assumptions render_cursor_from_place.
 
-(* every tree without an Overlay, every size at which it fits *)
+(* every tree, every size at which it fits *)
 Theorem cursor_agree :
-  forall w s, ov_free w = true -> fits w s = true ->
+  forall w s, fits w s = true ->
     cursor_coords w s = of_oxy (render_cursor w s true).
-Proof. intros w s Ho Hf. exact (cursor_deep_all w Ho s Hf). Qed.
+Proof. intros w s Hf. exact (cursor_deep_all w s Hf). Qed.
 Print Assumptions cursor_agree.
 
-(* the full statement (Overlay included) is false of the faithful model: Overlay.get_cursor_coords
-   unpacks the top widget's answer unconditionally (TypeError when it is None) *)
-Definition cursor_agree_full : Prop :=
-  forall w s, fits w s = true -> cursor_coords w s = of_oxy (render_cursor w s true).
-
+(* regression: the first-round witness against Overlay.get_cursor_coords (TypeError on a top widget without
+   cursor); the repaired code reports no cursor, like the rendering *)
 Definition overlay_witness_1 : widget :=
   Overlay (Leaf (LeafD 0 true 1 0 true true None [] 1)) (border_leaf true)
           GLeft 0 GRelative 100 None 0 0 GTop 0 GRelative 100 None 0 0.
 
-Theorem cursor_agree_overlay_refuted :
-  exists w s, fits w s = true /\ render_cursor w s true = None /\ cursor_coords w s = CErr TypeError.
-Proof. exists overlay_witness_1, (1, Some 1). vm_compute. auto. Qed.
-Print Assumptions cursor_agree_overlay_refuted.
+Example overlay_witness_1_repaired :
+  fits overlay_witness_1 (1, Some 1) = true /\ render_cursor overlay_witness_1 (1, Some 1) true = None /\
+  cursor_coords overlay_witness_1 (1, Some 1) = CNone.
+Proof. vm_compute. auto. Qed.
 
 (* ------------------------------------------------------------------------------------------ *)
 (* clause 2: a mouse event on a cell where a child is drawn goes to that child, with coordinates *)
 (* relative to the child's top-left corner, and to no other child                               *)
 (* ------------------------------------------------------------------------------------------ *)
 
-(* one level, every widget class (an Overlay with a box top widget): for every child rectangle of
+(* one level, every widget class: for every child rectangle of
    [place] and every cell inside it, mouse_event hands the event to exactly that child, with the
    size render handed to it and the cell translated by the child's offset *)
 Theorem mouse_hits_drawn_child :
   forall w s p col row focus,
-    fits w s = true -> top_not_pack_overlay w = true ->
+    fits w s = true ->
     In p (place w s) -> p_bg p = false ->
     in_rect (p_x p) (p_y p) (fst (p_size p)) (crows (child_info w (p_idx p)) (p_size p)) col row ->
     exists f, mouse_route w s col row focus = Some (Routed (p_idx p) (p_size p) (col - p_x p) (row - p_y p) f).
@@ -76,7 +74,7 @@ Print Assumptions mouse_hits_drawn_child.
 (* ... and to no other child: two drawn children whose rectangles contain the cell are the same child *)
 Theorem mouse_to_no_other_child :
   forall w s p q col row,
-    fits w s = true -> top_not_pack_overlay w = true ->
+    fits w s = true ->
     In p (place w s) -> p_bg p = false -> In q (place w s) -> p_bg q = false ->
     in_rect (p_x p) (p_y p) (fst (p_size p)) (crows (child_info w (p_idx p)) (p_size p)) col row ->
     in_rect (p_x q) (p_y q) (fst (p_size q)) (crows (child_info w (p_idx q)) (p_size q)) col row ->
@@ -89,11 +87,11 @@ Print Assumptions mouse_to_no_other_child.
    the leaf was rendered with; whatever the focus flags of the rendering and of the event *)
 Theorem mouse_reaches_drawn_leaf :
   forall w s f1 f2 r col row,
-    ov_boxtop w = true -> fits w s = true ->
+    fits w s = true ->
     In r (leaf_rects w s f1) -> rc_bg r = false ->
     in_rect (rc_x r) (rc_y r) (rc_cols r) (rc_rows r) col row ->
     exists f, mouse_leaf w s col row f2 = Some (Hit (rc_id r) (col - rc_x r) (row - rc_y r) f (rc_size r)).
-Proof. intros w s f1 f2 r col row Ho Hf. exact (mouse_deep_all w Ho s f1 f2 r col row Hf). Qed.
+Proof. intros w s f1 f2 r col row Hf. exact (mouse_deep_all w s f1 f2 r col row Hf). Qed.
 Print Assumptions mouse_reaches_drawn_leaf.
 
 (* the drawn rectangles lie inside the canvas of the widget (what "cell of the rendered area" means) *)
@@ -103,28 +101,26 @@ Theorem leaf_rects_inside_canvas :
 Proof. intros w s f r Hf Hr. destruct (view_good w) as [_ [H _]]. exact (H s f r Hf Hr). Qed.
 Print Assumptions leaf_rects_inside_canvas.
 
-(* the full statement (any Overlay) is false of the faithful model: Overlay.calculate_padding_filler takes the
-   height of a flow top widget from rows((maxcol,)) at the overlay's FULL width, not at the top widget's width *)
-Definition mouse_reaches_drawn_leaf_full : Prop :=
-  forall w s f1 f2 r col row,
-    fits w s = true -> In r (leaf_rects w s f1) -> rc_bg r = false ->
-    in_rect (rc_x r) (rc_y r) (rc_cols r) (rc_rows r) col row ->
-    exists f, mouse_leaf w s col row f2 = Some (Hit (rc_id r) (col - rc_x r) (row - rc_y r) f (rc_size r)).
-
+(* regression: the first-round witness against Overlay hit-testing (height of a flow top widget taken at the
+   overlay's full width): the leaf wraps to 2 rows at its width 2; both rows receive the press now *)
 Definition overlay_witness_2 : widget :=
   Overlay (Leaf (LeafD 0 false 1 3 true true (Some (0, 0)) [] 1)) (border_leaf true)
           GLeft 0 GGiven 2 None 0 0 GTop 0 GPack 0 None 0 0.
 
-Theorem mouse_overlay_flow_top_refuted :
-  exists w s r col row,
-    fits w s = true /\ In r (leaf_rects w s true) /\ rc_bg r = false /\
-    in_rect (rc_x r) (rc_y r) (rc_cols r) (rc_rows r) col row /\
-    mouse_leaf w s col row true = None.
-Proof.
-  exists overlay_witness_2, (4, Some 3), (Rect 0 0 0 2 2 true (2, None) false), 0, 1.
-  vm_compute. repeat split; auto; discriminate.
-Qed.
-Print Assumptions mouse_overlay_flow_top_refuted.
+Example overlay_witness_2_repaired :
+  fits overlay_witness_2 (4, Some 3) = true /\
+  In (Rect 0 0 0 2 2 true (2, None) false) (leaf_rects overlay_witness_2 (4, Some 3) true) /\
+  mouse_leaf overlay_witness_2 (4, Some 3) 0 1 true = Some (Hit 0 0 1 true (2, None)).
+Proof. vm_compute. auto. Qed.
+
+(* about the translated code: for a given height that fits, top + height + bottom is the whole area; this is what
+   makes the hit area of an Overlay cover every row of a flow top widget *)
+Theorem filler_given_height_exact :
+  forall maxrow vt vamt h t0 b0,
+    let tb := calculate_top_bottom_filler maxrow vt vamt GGiven h None t0 b0 in
+    fst tb + h <= maxrow -> fst tb + h + snd tb = maxrow.
+Proof. exact ctbf_given_exact. Qed.
+Print Assumptions filler_given_height_exact.
 
 (* ------------------------------------------------------------------------------------------ *)
 (* clause 3: move_cursor_to_coords succeeds exactly when the wrapped widget accepts the          *)
@@ -208,7 +204,7 @@ Definition example_tree : widget :=
   linebox (Pile [(PPack, Columns [(CWeight 1, false, lf 0 1 (Some (1, 0))); (CGiven 3, false, lf 1 2 None)] 0 1 1);
                  (PPack, Padding (lf 2 1 (Some (0, 0))) GCenter 0 GGiven 3 None 1 0)] 1) true true.
 
-Example example_fits : fits example_tree (9, None) = true /\ ov_free example_tree = true /\ ov_boxtop example_tree = true.
+Example example_fits : fits example_tree (9, None) = true.
 Proof. vm_compute. auto. Qed.
 
 Example example_cursor :
